@@ -36,6 +36,10 @@ func (ce CompositeExtractStrategy) GetAuthData(ctx heimdall.Context) (string, er
 		errors = append(errors, err)
 	}
 
+	if len(errors) == 0 {
+		return "", errorchain.NewWithMessage(heimdall.ErrArgument, "no authentication data extraction strategy defined")
+	}
+
 	err := errorchain.New(errors[0])
 	for i := 1; i < len(errors); i++ {
 		err = err.CausedBy(errors[i])
